@@ -159,7 +159,13 @@ fn run_consumer<K: Kmer + Send + Sync>(c: &ConsumerCase, rec: &mut Rec) -> Resul
     let g = build::<K>(&c.graph);
     rec.ev("graph", g.len() as u64, 0);
     if g.len() == 0 {
-        return Ok(());
+        // iterating an empty graph must visit nothing (and not panic)
+        rec.count("reach_empty_graph_iterated");
+        return match guarded(|| (&g).into_iter().map(|nk| nk.into_iter().count()).sum::<usize>()) {
+            Ok(0) => Ok(()),
+            Ok(n) => Err(Violation::new("whole-graph-iteration", "&DebruijnGraph::into_iter", format!("empty graph yielded {} k-mers", n))),
+            Err((loc, msg)) => Err(Violation::new("panic", "&DebruijnGraph::into_iter", format!("iterating an empty graph panicked at {}: {}", loc, msg))),
+        };
     }
     let id = c.node_sel % g.len();
     let mut slots: Vec<Slot<K>> = vec![open_slot(&g, id, c.via_graph_iter, false, rec)?];
@@ -287,6 +293,7 @@ fn gen_ops(rng: &mut Rng) -> Vec<Op> {
             10 => Op::NthRel(-1),
             _ => match rng.below(6) {
                 0 => Op::Nth(usize::MAX - rng.below(70)),
+                2 => Op::Nth((1usize << 32) * rng.range(1, 3) + rng.below(8)),
                 1 => Op::Nth(usize::MAX / 2 + rng.below(5)),
                 _ => Op::NthRel(rng.range(2, 70) as i64),
             },
@@ -327,6 +334,10 @@ impl Harness for Consumer {
             if graph.direct_nodes.is_empty() {
                 graph.direct_nodes = vec![((0..k + 5).map(|i| ((i * 7 + 1) % 4) as u8).collect(), 0)];
             }
+        }
+        if rng.chance(1, 60) {
+            graph.reads.clear();
+            graph.direct_nodes.clear();
         }
         ConsumerCase {
             graph,
@@ -429,7 +440,16 @@ fn run_mphf_serial<K: Kmer + Send + Sync>(c: &MphfCase, rec: &mut Rec) -> Result
     let n = mon.total_kmers();
     rec.ev("graph", g.len() as u64, n as u64);
     if n == 0 {
-        return Ok(());
+        // an index over an empty graph: the constructor must cope with zero nodes
+        rec.count("reach_empty_graph_indexed");
+        return match guarded(|| Mphf::<K>::from_chunked_iterator(gamma, &g, 0)) {
+            Ok(_) => Ok(()),
+            Err((loc, msg)) => Err(Violation::new(
+                "panic",
+                "Mphf::from_chunked_iterator over &DebruijnGraph",
+                format!("construction over an empty graph panicked at {}: {}", loc, msg.chars().take(160).collect::<String>()),
+            )),
+        };
     }
     // measured precondition (C01's business otherwise): k-mers distinct
     let mut all: BTreeSet<Vec<u8>> = BTreeSet::new();
@@ -522,7 +542,10 @@ impl Harness for MphfSerial {
     }
     fn gen(&self, rng: &mut Rng, tier: Tier) -> MphfCase {
         let long = rng.chance(1, if tier == Tier::Thorough { 40 } else { 400 });
-        let graph = if long { gen_graph_spec(rng, &KTYPES, 6, 1500) } else { gen_graph_spec(rng, &KTYPES, 8, 160) };
+        let mut graph = if long { gen_graph_spec(rng, &KTYPES, 6, 1500) } else { gen_graph_spec(rng, &KTYPES, 8, 160) };
+        if rng.chance(1, 60) {
+            graph.reads.clear();
+        }
         let gamma_milli = match rng.below(4) {
             0 => 1700,
             1 => rng.range(1020, 1200) as u32,
